@@ -94,10 +94,10 @@ func (c *dumpCase) source() string {
 func genDumpCase(t *rapid.T, cfg gen.ProgCfg) dumpCase {
 	p, feat := gen.GenProg(t, cfg)
 	c := dumpCase{Name: "n"}
-	if gen.Chance(t, 2, "manylocals") {
-		n := gen.Pick(t, "nlocals", []int{239, 240, 241, 242, 300, 1000})
-		p = gen.ManyLocalsProg(n, gen.Bool(t, "inblock"))
-		c.Classes = append(c.Classes, fmt.Sprintf("locals:%d", n))
+	if gen.Chance(t, 3, "special") {
+		var tag string
+		p, tag = gen.SpecialProg(t)
+		c.Classes = append(c.Classes, tag)
 	}
 	// long / boundary-sized string constant
 	if strs := collectStrs(p); len(strs) > 0 && gen.Chance(t, 45, "longstr") {
